@@ -88,7 +88,7 @@ def check(pid, tier, only=None):
         for o in kobs:
             by_crate.setdefault(o["crate"], []).append(o)
         for crate, lst in sorted(by_crate.items()):
-            tmo = max(o.get("timeout", 600) for o in lst)
+            tmo = max(o.get("timeout", 1500) for o in lst)
             res, out, meta = kani_run.build_and_verify(crate, ["::" + o["harness"] for o in lst], harness_timeout=tmo, exact=False)
             kani_meta.append(meta)
             for o in lst:
@@ -285,6 +285,8 @@ def write_evidence(pid, tier, seed, mod, records, violations, broken, kani_meta,
     ev["coverage"].update(extras or {})
     if hasattr(mod, "extra_evidence"):
         ev["coverage"].update(mod.extra_evidence())
-    os.makedirs(os.path.join(VERIF, "evidence"), exist_ok=True)
-    with open(os.path.join(VERIF, "evidence", pid + ".json"), "w") as f:
+    # runs against a deliberately modified tree (seeded changes, mutants) must not overwrite the evidence of the real tree
+    evdir = os.environ.get("VERIF_EVIDENCE_DIR") or os.path.join(VERIF, "evidence")
+    os.makedirs(evdir, exist_ok=True)
+    with open(os.path.join(evdir, pid + ".json"), "w") as f:
         json.dump(ev, f, indent=1)
